@@ -6,6 +6,7 @@ import pickle
 import sqlite3
 import zlib
 import json
+import time as _time
 
 import fw
 import instr
@@ -28,6 +29,70 @@ ASSUMPTIONS = ['file names are fresh (16 random bytes)', 'POSIX (os.linesep == "
 BIG = 2 ** 15
 
 
+# Picklable values whose CLASS is part of the value: instances of user subclasses of the builtin types the storage layer treats
+# specially (str / bytes / int / float) and of the builtin containers.  "An equal value of the same type" means the same class.
+class SubStr(str):
+    """a str subclass carrying meaning in its type (a markup-safe string, an enum-like token)"""
+
+
+class SubBytes(bytes):
+    pass
+
+
+class SubInt(int):
+    pass
+
+
+class SubFloat(float):
+    pass
+
+
+class SubTuple(tuple):
+    pass
+
+
+class SubList(list):
+    pass
+
+
+class SubDict(dict):
+    pass
+
+
+class MarkedStr(str):
+    """a str subclass with instance state: equal only when text AND mark are equal"""
+
+    def __new__(cls, text='', mark=None):
+        self = str.__new__(cls, text)
+        self.mark = mark
+        return self
+
+    def __eq__(self, o):
+        return type(o) is MarkedStr and str.__eq__(self, o) and getattr(o, 'mark', None) == self.mark
+
+    def __ne__(self, o):
+        return not self.__eq__(o)
+
+    def __hash__(self):
+        return str.__hash__(self)
+
+    def __reduce_ex__(self, protocol):
+        return (MarkedStr, (str(self), self.mark))
+
+
+def subclass_values(m):
+    """subclass instances on both sides of the file threshold m (text / blob kept in the row vs. written to a value file)"""
+    out = []
+    for n in sorted({0, 3, max(0, m - 1), m, m + 1}):
+        out.append(SubStr('s' * n))
+        out.append(SubBytes(b'\x00\xff' * (n // 2) + b'z' * (n % 2)))
+    out += [SubStr('line\r\nbreak\rx' * (m // 14 + 1)), MarkedStr('m' * (m + 1), mark=('k', 1)), MarkedStr('', mark=None),
+            SubInt(7), SubInt(-2 ** 63), SubInt(2 ** 64), SubFloat(1.5), SubFloat(-0.0), SubFloat('inf'),
+            SubTuple((1, 'a', SubStr('in'))), SubList([1, [2], SubBytes(b'in')]), SubDict({'k': SubInt(1), 'z': None}),
+            (SubStr('a' * m), SubBytes(b'b' * m))]
+    return out
+
+
 def values_for(m, thorough):
     """Alphabet of the property's quantifier, lengths around min_file_size m."""
     out = []
@@ -48,6 +113,7 @@ def values_for(m, thorough):
             out.append(b'a' * (n - 3) + b'\r\n\x00')
     out += [None, True, False, (), (1, 2.0, 'x', b'y', None), [1, [2, [3]]], {'k': [1, 2], 'z': None},
             frozenset({1, 2}), (float('nan'),), 'x' * 5 + '\r' + 'y' * 5, ('a' * (m + 1),), [b'\r\n' * (m // 2 + 1)]]
+    out += subclass_values(m)
     for n in (0, 1, 100, max(0, m - 1), m, m + 1):
         out.append(Stream(bytes((i * 7) % 256 for i in range(n))))
     for n, burst in ((100, 7), (1000, 64), (m + 5, 1)):
@@ -70,16 +136,37 @@ def json_ok(v):
 def classify(v, accessor, file_backed, diskname, got):
     if isinstance(v, float) and v != v:
         return 'nan_to_none'
-    if isinstance(v, str) and '\r' in v and file_backed:
+    if type(v) is str and type(got) is str and '\r' in v and file_backed:
         return 'text_cr_translated'
     if diskname == 'JSONDisk' and isinstance(v, Stream):
         return 'json_stream_plain_get'
     return 'value_altered:%s:%s' % (type(v).__name__, accessor)
 
 
+_PLAIN_TYPES = (int, float, str, bytes, bool, type(None), tuple, list, dict, set, frozenset, Stream)
+
+
 def short(v):
     r = repr(v)
-    return r if len(r) < 80 else r[:40] + '...(%d chars)' % len(r)
+    r = r if len(r) < 80 else r[:40] + '...(%d chars)' % len(r)
+    if type(v) not in _PLAIN_TYPES and isinstance(v, _PLAIN_TYPES):
+        r = '%s(%s)' % (type(v).__name__, r)          # an instance of a subclass of a builtin type: the class is part of the value
+    return r
+
+
+def pickle_hex(v):
+    """replayable form of a value: hex of its pickle, zlib-compressed ('z:' prefix) when long; None when still too long"""
+    h = pickle.dumps(v, protocol=4)
+    if len(h) <= 2000:
+        return h.hex()
+    z = zlib.compress(h, 9)
+    return 'z:' + z.hex() if len(z) <= 4000 else None
+
+
+def unpickle_hex(h):
+    if h.startswith('z:'):
+        return pickle.loads(zlib.decompress(bytes.fromhex(h[2:])))
+    return pickle.loads(bytes.fromhex(h))
 
 
 def observe_row(directory, key):
@@ -108,7 +195,7 @@ def run_config(ctx, res, m, protocol, diskcls, thorough, coqcases, stats):
         is_stream = isinstance(v, Stream)
         key = 'k%d' % vi
         case = {'check': 'roundtrip', 'disk': diskname, 'min_file_size': m, 'protocol': protocol, 'value': short(v),
-                'value_pickle_hex': None if is_stream else pickle.dumps(v, protocol=4).hex()[:4000], 'stream_len': len(v.data) if is_stream else None}
+                'value_pickle_hex': None if is_stream else pickle_hex(v), 'stream_len': len(v.data) if is_stream else None}
 
         def put(c, k):
             if is_stream:
@@ -587,6 +674,359 @@ def overlapping_stores(ctx, res, stats, thorough):
     res.sample({'check': 'overlapping_stores', 'kinds': SHARED_KINDS, 'scenarios': st['scenarios'], 'overlapped': st['overlapped']})
 
 
+# ---------------------------------------------------------------------------------------------------------------
+# Every storing entry point x every option x every accessor.  The property quantifies over "whatever value is stored ... given as an
+# object or as a readable binary stream" and "any accessor": it does not matter WHICH method of WHICH container took the value in.
+
+def _django_cache():
+    from django.conf import settings
+    if not settings.configured:
+        settings.configure()
+    from diskcache.djangocache import DjangoCache
+    return DjangoCache
+
+
+def ep_values(m):
+    """representative alphabet for the entry-point monitor: every class of value on both sides of the threshold m"""
+    out = [0, -1, 2 ** 63 - 1, 2 ** 63, -10 ** 30, -0.0, 1.5, float('inf'), float('nan'), None, True, (), (1, 2.0, 'x', b'y', None),
+           [1, [2, [3]]], {'k': [1, 2], 'z': None}, frozenset({1, 2}), ('a' * (m + 1),), [b'\r\n' * (m // 2 + 1)], '\ud800']
+    for n in sorted({0, max(0, m - 1), m, m + 1}):
+        out.append('a' * n)
+        out.append(bytes((i * 5) % 256 for i in range(n)))
+    out.append('x' * max(0, m - 2) + '\r\ny\r')
+    out.append('\x00\x85' + 'z' * m)
+    out += subclass_values(m)
+    for n in sorted({0, 1, 100, max(0, m - 1), m, m + 1}):
+        out.append(Stream(bytes((i * 7) % 256 for i in range(n))))
+    out.append(Stream(bytes((i * 11) % 256 for i in range(m + 5)), burst=7 if m < 100 else 4096))
+    return out
+
+
+def ep_options(i):
+    """rotating option combinations of the storing methods (expiry far in the future; tag; waiting for the lock or not)"""
+    return {'expire': (None, 3600.0, 86400)[i % 3], 'tag': (None, 'tg')[(i // 3) % 2], 'retry': bool((i // 6) % 2), 'version': (None, 3)[(i // 2) % 2]}
+
+
+def _handle_value(r):
+    """an accessor asked for a read handle returns an open binary file for file-backed binary values, the value itself otherwise"""
+    if isinstance(r, io.BufferedReader):
+        with r:
+            return r.read()
+    return r
+
+
+def _kv(o, k, v, rd, op):
+    return dict(expire=op['expire'], read=rd, tag=op['tag'], retry=op['retry'])
+
+
+def _dj_kw(op, rd):
+    return dict(timeout=op['expire'], version=op['version'], read=rd, tag=op['tag'], retry=op['retry'])
+
+
+class _OnlyValue:
+    """default marker that no accessor may return"""
+
+    def __repr__(self):
+        return '<missing>'
+
+
+_MISSING = _OnlyValue()
+
+# storers: name -> (accepts, f(o, k, v, rd, op)); accepts in 'both' (objects and streams), 'plain', 'int'
+# readers: (name, f(o, k, op), destructive)
+EP_TABLE = {}
+
+
+def _ep_cache_like(fanout):
+    st = {
+        'set': ('both', lambda o, k, v, rd, op: o.set(k, v, **_kv(o, k, v, rd, op))),
+        'set_positional': ('both', lambda o, k, v, rd, op: o.set(k, v, op['expire'], rd, op['tag'], op['retry'])),
+        'add': ('both', lambda o, k, v, rd, op: o.add(k, v, **_kv(o, k, v, rd, op))),
+        'add_positional': ('both', lambda o, k, v, rd, op: o.add(k, v, op['expire'], rd, op['tag'], op['retry'])),
+        'setitem': ('plain', lambda o, k, v, rd, op: o.__setitem__(k, v)),
+        'incr': ('int', lambda o, k, v, rd, op: o.incr(k, v, default=0, retry=op['retry'])),
+        'decr': ('int', lambda o, k, v, rd, op: o.decr(k, -v, default=0, retry=op['retry'])),
+    }
+    rd = [
+        ('get', lambda o, k, op: o.get(k, _MISSING), False),
+        ('get(read=True)', lambda o, k, op: _handle_value(o.get(k, _MISSING, read=True)), False),
+        ('get(expire_time,tag)', lambda o, k, op: o.get(k, _MISSING, expire_time=True, tag=True)[0], False),
+        ('get(retry=True)', lambda o, k, op: o.get(k, default=_MISSING, retry=True), False),
+        ('getitem', lambda o, k, op: o[k], False),
+        ('read', lambda o, k, op: _handle_value(o.read(k)), False),
+        ('pop', lambda o, k, op: o.pop(k, _MISSING), True),
+        ('pop(expire_time,tag)', lambda o, k, op: o.pop(k, _MISSING, expire_time=True, tag=True)[0], True),
+    ]
+    if not fanout:
+        rd.insert(0, ('peekitem', lambda o, k, op: dict([o.peekitem()])[k], False))
+        rd.insert(1, ('peekitem(expire_time,tag)', lambda o, k, op: dict([o.peekitem(expire_time=True, tag=True)[0]])[k], False))
+    return {'storers': st, 'readers': rd, 'absent': lambda o, k, op: k not in o,
+            'remove': lambda o, k, op: o.pop(k, None)}
+
+
+EP_TABLE['Cache'] = _ep_cache_like(False)
+EP_TABLE['FanoutCache'] = _ep_cache_like(True)
+EP_TABLE['Cache.queue'] = {
+    'storers': {
+        'push': ('both', lambda o, k, v, rd, op: o.push(v, prefix=k, expire=op['expire'], read=rd, tag=op['tag'], retry=op['retry'])),
+        'push_front': ('both', lambda o, k, v, rd, op: o.push(v, k, 'front', op['expire'], rd, op['tag'], op['retry'])),
+    },
+    'readers': [
+        ('peek', lambda o, k, op: o.peek(prefix=k, default=(None, _MISSING))[1], False),
+        ('peek(back,expire_time,tag)', lambda o, k, op: o.peek(k, (None, _MISSING), 'back', True, True)[0][1], False),
+        ('pull', lambda o, k, op: o.pull(prefix=k, default=(None, _MISSING))[1], True),
+        ('pull(back,expire_time,tag)', lambda o, k, op: o.pull(k, (None, _MISSING), 'back', True, True)[0][1], True),
+    ],
+    'absent': lambda o, k, op: o.peek(prefix=k, default=(None, _MISSING))[1] is _MISSING,
+    'remove': lambda o, k, op: o.pull(prefix=k),
+}
+EP_TABLE['DjangoCache'] = {
+    'storers': {
+        'set': ('both', lambda o, k, v, rd, op: o.set(k, v, **_dj_kw(op, rd))),
+        'add': ('both', lambda o, k, v, rd, op: o.add(k, v, **_dj_kw(op, rd))),
+        'set_many': ('plain', lambda o, k, v, rd, op: o.set_many({k: v}, timeout=op['expire'], version=op['version'])),
+        'get_or_set': ('plain', lambda o, k, v, rd, op: o.get_or_set(k, v, timeout=op['expire'], version=op['version'])),
+        'get_or_set(callable)': ('plain', lambda o, k, v, rd, op: o.get_or_set(k, lambda: v, timeout=op['expire'], version=op['version'])),
+    },
+    'readers': [
+        ('get', lambda o, k, op: o.get(k, _MISSING, version=op['version']), False),
+        ('get(read=True)', lambda o, k, op: _handle_value(o.get(k, _MISSING, version=op['version'], read=True)), False),
+        ('get(expire_time,tag,retry)', lambda o, k, op: o.get(k, _MISSING, op['version'], False, True, True, True)[0], False),
+        ('read', lambda o, k, op: _handle_value(o.read(k, version=op['version'])), False),
+        ('get_many', lambda o, k, op: o.get_many([k], version=op['version']).get(k, _MISSING), False),
+        ('get_or_set(existing)', lambda o, k, op: o.get_or_set(k, _MISSING, version=op['version']), False),
+        ('pop', lambda o, k, op: o.pop(k, _MISSING, version=op['version']), True),
+        ('pop(expire_time,tag)', lambda o, k, op: o.pop(k, _MISSING, op['version'], True, True)[0], True),
+        ('incr_version+get', lambda o, k, op: (o.incr_version(k, version=op['version'] or 1),
+                                                o.pop(k, _MISSING, version=(op['version'] or 1) + 1))[1], True),
+    ],
+    'absent': lambda o, k, op: not o.has_key(k, version=op['version']),
+    'remove': lambda o, k, op: o.delete(k, version=op['version']),
+}
+EP_TABLE['Index'] = {
+    'storers': {
+        'setitem': ('plain', lambda o, k, v, rd, op: o.__setitem__(k, v)),
+        'setdefault': ('plain', lambda o, k, v, rd, op: o.setdefault(k, v)),
+        'update': ('plain', lambda o, k, v, rd, op: o.update({k: v})),
+        'update(pairs)': ('plain', lambda o, k, v, rd, op: o.update([(k, v)])),
+        'fromcache': ('plain', lambda o, k, v, rd, op: type(o).fromcache(o.cache, {k: v})),
+    },
+    'readers': [
+        ('getitem', lambda o, k, op: o[k], False),
+        ('get', lambda o, k, op: o.get(k, _MISSING), False),
+        ('setdefault(existing)', lambda o, k, op: o.setdefault(k, _MISSING), False),
+        ('values', lambda o, k, op: list(o.values())[-1], False),
+        ('items', lambda o, k, op: dict(o.items())[k], False),
+        ('peekitem', lambda o, k, op: dict([o.peekitem()])[k], False),
+        ('pop', lambda o, k, op: o.pop(k, _MISSING), True),
+        ('popitem', lambda o, k, op: dict([o.popitem()])[k], True),
+    ],
+    'absent': lambda o, k, op: k not in o,
+    'remove': lambda o, k, op: o.pop(k, None),
+}
+EP_TABLE['Index.queue'] = {
+    'storers': {
+        'push': ('plain', lambda o, k, v, rd, op: o.push(v, prefix=k)),
+        'push_front': ('plain', lambda o, k, v, rd, op: o.push(v, k, 'front')),
+    },
+    'readers': [
+        ('cache.peek', lambda o, k, op: o.cache.peek(prefix=k, default=(None, _MISSING))[1], False),
+        ('pull', lambda o, k, op: o.pull(prefix=k, default=(None, _MISSING))[1], True),
+        ('pull(back)', lambda o, k, op: o.pull(k, (None, _MISSING), 'back')[1], True),
+    ],
+    'absent': lambda o, k, op: o.cache.peek(prefix=k, default=(None, _MISSING))[1] is _MISSING,
+    'remove': lambda o, k, op: o.pull(prefix=k),
+}
+
+
+def _dq_setitem(o, k, v, rd, op):
+    o.append('placeholder')
+    try:
+        o[len(o) - 1] = v
+    except BaseException:
+        o.pop()
+        raise
+
+
+EP_TABLE['Deque'] = {
+    # a Deque has no keys: the monitor keeps it empty between cases, so the stored element is the only one
+    'storers': {
+        'append': ('plain', lambda o, k, v, rd, op: o.append(v)),
+        'appendleft': ('plain', lambda o, k, v, rd, op: o.appendleft(v)),
+        'extend': ('plain', lambda o, k, v, rd, op: o.extend([v])),
+        'extendleft': ('plain', lambda o, k, v, rd, op: o.extendleft(iter([v]))),
+        'iadd': ('plain', lambda o, k, v, rd, op: o.__iadd__([v])),
+        'setitem': ('plain', _dq_setitem),
+        'fromcache': ('plain', lambda o, k, v, rd, op: type(o).fromcache(o.cache, [v])),
+    },
+    'readers': [
+        ('[0]', lambda o, k, op: o[0], False),
+        ('[-1]', lambda o, k, op: o[-1], False),
+        ('peek', lambda o, k, op: o.peek(), False),
+        ('peekleft', lambda o, k, op: o.peekleft(), False),
+        ('iter', lambda o, k, op: list(o)[0], False),
+        ('reversed', lambda o, k, op: list(reversed(o))[0], False),
+        ('copy', lambda o, k, op: _dq_copy_first(o), False),
+        ('rotate+[0]', lambda o, k, op: (o.rotate(1), o[0])[1], False),
+        ('reverse+[0]', lambda o, k, op: (o.reverse(), o[0])[1], False),
+        ('pop', lambda o, k, op: o.pop(), True),
+        ('popleft', lambda o, k, op: o.popleft(), True),
+    ],
+    'absent': lambda o, k, op: len(o) == 0,
+    'remove': lambda o, k, op: o.clear(),
+}
+
+
+def _dq_copy_first(o):
+    c = o.copy()            # a second handle on the same directory
+    try:
+        return c[0]
+    finally:
+        c.cache.close()
+
+
+def ep_make(ctx_scratch, container, m, protocol):
+    """-> (object driven by the table, table name(s), closer)"""
+    kw = dict(disk_min_file_size=m, disk_pickle_protocol=protocol, eviction_policy='none')
+    if container == 'Cache':
+        o = diskcache.Cache(ctx_scratch('c01ep'), **kw)
+        return o, ['Cache', 'Cache.queue'], o.close
+    if container == 'FanoutCache':
+        o = diskcache.FanoutCache(ctx_scratch('c01ep'), shards=3, **kw)
+        return o, ['FanoutCache'], o.close
+    if container == 'DjangoCache':
+        o = _django_cache()(ctx_scratch('c01ep'), {'SHARDS': 2, 'OPTIONS': kw})
+        return o, ['DjangoCache'], o.close
+    if container == 'Index':
+        o = diskcache.Index.fromcache(diskcache.Cache(ctx_scratch('c01ep'), **kw))
+        return o, ['Index', 'Index.queue'], o.cache.close
+    if container == 'Deque':
+        o = diskcache.Deque.fromcache(diskcache.Cache(ctx_scratch('c01ep'), **kw))
+        return o, ['Deque'], o.cache.close
+    # containers handed out by a FanoutCache / DjangoCache (their settings are the defaults: threshold 32 KiB)
+    parent = diskcache.FanoutCache(ctx_scratch('c01ep'), shards=2) if container.startswith('FanoutCache.') else \
+        _django_cache()(ctx_scratch('c01ep'), {'SHARDS': 2})
+    sub = container.split('.')[1]
+    if sub == 'cache':
+        o = parent.cache('sub')
+        return o, ['Cache', 'Cache.queue'], lambda: (o.close(), parent.close())
+    if sub == 'index':
+        o = parent.index('sub')
+        return o, ['Index', 'Index.queue'], lambda: (o.cache.close(), parent.close())
+    o = parent.deque('sub')
+    return o, ['Deque'], lambda: (o.cache.close(), parent.close())
+
+
+EP_CONTAINERS = ['Cache', 'FanoutCache', 'DjangoCache', 'Index', 'Deque']
+EP_SUBCONTAINERS = ['FanoutCache.cache', 'FanoutCache.index', 'FanoutCache.deque', 'DjangoCache.cache', 'DjangoCache.index', 'DjangoCache.deque']
+
+
+EP_COSTLY = {'reverse+[0]', 'copy'}          # accessors that open a further Cache: one case in eight in the quick tier
+
+
+def ep_case(o, table, storer, reader_names, v, op, key, skip=()):
+    """Store v through one entry point, then look it up through the named accessors (all of the table when None, minus `skip`).
+    -> list of (sig, description, reader)"""
+    t = EP_TABLE[table]
+    accepts, put = t['storers'][storer]
+    is_stream = isinstance(v, Stream)
+    want = v.data if is_stream else v
+    problems = []
+    nkey = [0]
+
+    def store():
+        nkey[0] += 1
+        k = '%s.%d' % (key, nkey[0])
+        put(o, k, v.open() if is_stream else v, is_stream, op)
+        return k
+
+    readers = [r for r in t['readers'] if (reader_names is None and r[0] not in skip) or (reader_names is not None and r[0] in reader_names)]
+    k = None
+    for name, f, destructive in readers:
+        if k is None:
+            try:
+                k = store()
+            except Exception as e:  # noqa -- rejected with an exception: allowed, but then nothing may be there
+                kk = '%s.%d' % (key, nkey[0])
+                try:
+                    if not t['absent'](o, kk, op):
+                        problems.append(('rejected_but_stored', 'the store raised %r but the key exists' % e, name))
+                        t['remove'](o, kk, op)
+                except Exception as e2:  # noqa
+                    problems.append(('rejected_but_stored', 'the store raised %r and looking the key up raised %r' % (e, e2), name))
+                return problems, 'rejected:' + type(e).__name__
+        try:
+            got = f(o, k, op)
+            ok = same(got, want)
+        except Exception as e:  # noqa
+            got, ok = ('<raised>', type(e).__name__, str(e)[:80]), False
+        if not ok:
+            problems.append(('entry_point_altered:%s.%s:%s' % (table, storer, 'stream' if is_stream else type(v).__name__),
+                             '%s.%s(%s%s) then %s returned %s' % (table, storer, short(v), ', read=True' if is_stream else '', name, short(got)), name))
+        if destructive:
+            k = None
+    if k is not None:
+        try:
+            t['remove'](o, k, op)
+        except Exception:  # noqa
+            pass
+    return problems, 'stored'
+
+
+def ep_accepts(accepts, v):
+    if isinstance(v, Stream):
+        return accepts == 'both'
+    if accepts == 'int':
+        return type(v) is int and abs(v) < 2 ** 62
+    return True
+
+
+def entry_points(ctx, res, stats, thorough):
+    """Every storing entry point of every container (Cache / FanoutCache / DjangoCache set, add by keyword and by position, []=, incr/decr,
+    push at both ends, set_many, get_or_set; Index []=, setdefault, update, fromcache, push; Deque append(left), extend(left), +=, []=,
+    fromcache; and the containers a FanoutCache / DjangoCache hands out) x objects and read=True streams x rotating expire / tag / retry /
+    version options, then EVERY accessor of that container (with and without its optional parameters): an equal value of the same type."""
+    st = stats.setdefault('entry_points', {'cases': 0, 'lookups': 0, 'rejected': {}, 'combos': 0})
+    protos = [0, 2, pickle.HIGHEST_PROTOCOL]
+    n = 0
+    plan = [(c, m) for m in ((0, 8, BIG) if thorough else (8, BIG)) for c in EP_CONTAINERS] + [(c, BIG) for c in EP_SUBCONTAINERS]
+    tm = st.setdefault('seconds', {})
+    for ci, (container, m) in enumerate(plan):
+        protocol = protos[(ci + ctx.seed) % 3]
+        t_c = _time.time()
+        o, tables, close = ep_make(ctx.scratch, container, m, protocol)
+        vals = ep_values(m)
+        try:
+            for table in tables:
+                t = EP_TABLE[table]
+                for si, storer in enumerate(sorted(t['storers'])):
+                    accepts = t['storers'][storer][0]
+                    st['combos'] += 1
+                    for vi, v in enumerate(vals):
+                        if not ep_accepts(accepts, v):
+                            continue
+                        if not thorough and m == BIG and not isinstance(v, Stream) and (vi + si + ctx.seed) % (3 if '.' in container else 2):
+                            continue        # quick tier: half of the object values per entry point at the 32 KiB threshold (a third for handed-out containers), every stream
+                        n += 1
+                        oi = n + ctx.seed
+                        op = ep_options(oi)
+                        skip = () if thorough or (n + ctx.seed) % 8 == 0 else EP_COSTLY
+                        problems, outcome = ep_case(o, table, storer, None, v, op, 'e%d' % n, skip)
+                        st['cases'] += 1
+                        st['lookups'] += len([r for r in t['readers'] if r[0] not in skip])
+                        if outcome != 'stored':
+                            st['rejected'][outcome] = st['rejected'].get(outcome, 0) + 1
+                        res.count(['entry', container, table, storer, m, short(v), isinstance(v, Stream)], nontrivial=outcome == 'stored')
+                        for sig, desc, reader in problems:
+                            res.violations.append(fw.Violation(sig, desc, {
+                                'check': 'entry_point', 'container': container, 'table': table, 'storer': storer, 'reader': reader,
+                                'min_file_size': m, 'protocol': protocol, 'value_index': vi, 'value': short(v), 'options_index': oi}))
+        finally:
+            close()
+        tm[container] = round(tm.get(container, 0) + _time.time() - t_c, 1)
+    res.sample({'check': 'entry_points', 'containers': EP_CONTAINERS + EP_SUBCONTAINERS, 'cases': st['cases'], 'lookups': st['lookups']})
+
+
 def same_exact(a, b):
     """same type and same value, sign- and NaN-aware (0.0 is not -0.0, 1 is not 1.0, True is not 1)"""
     if type(a) is not type(b):
@@ -716,7 +1156,16 @@ def run(ctx, big_budget=False):
                 'Overlapping stores on ONE shared object (Cache set/add/push, FanoutCache with 1 and 2 shards set/add, Index []=): the store of a value '
                 '(7 shapes around an object whose __reduce__ / __reduce_ex__ / __getstate__ is suspended in the middle of pickling) overlaps a complete '
                 'store of another value (14 pickled and raw ones) under another key, by a second thread sharing the object or re-entrantly from the '
-                'pickling hook, x min_file_size {0,64,32768} x protocols; afterwards each key gives back its own value through get/[]/pop/peek/pull.')
+                'pickling hook, x min_file_size {0,64,32768} x protocols; afterwards each key gives back its own value through get/[]/pop/peek/pull.  '
+                'The alphabet includes instances of user SUBCLASSES of str / bytes (lengths min_file_size+{-1,0,1}, with and without instance state), int, '
+                'float, tuple, list, dict: the class is part of the value.  Entry points: every storing method of every container (Cache / FanoutCache / '
+                'DjangoCache set and add by keyword and by position, []=, incr / decr, Cache.push at both ends, DjangoCache set_many / get_or_set; Index []=, '
+                'setdefault, update, fromcache, push; Deque append(left), extend(left), +=, []=, fromcache; the cache / index / deque a FanoutCache or '
+                'DjangoCache hands out) x objects and read=True streams (incl. short-reading ones) x rotating expire / tag / retry / version options x '
+                'min_file_size {8,32768} (thorough: also 0), then EVERY accessor of that container with and without its optional parameters (get, '
+                'get(read=True), get(expire_time, tag), [], read, pop, peekitem, peek / pull at both ends, get_many, get_or_set, incr_version; Index get / '
+                'values / items / setdefault / popitem; Deque [0] / [-1] / peek(left) / iter / reversed / copy / rotate / reverse / pop(left)): an equal '
+                'value of the same type, or the store raised and nothing is there.')
     import time as _t
     t0 = _t.time()
     stats = {'rejected': {}, 'kinds': {}, 'file_backed': 0, 'accessor_calls': 0}
@@ -742,6 +1191,10 @@ def run(ctx, big_budget=False):
     faulted_writes(ctx, res, stats)
     overwrites(ctx, res, stats)
     retry_after_contention(ctx, res, stats)
+    t2 = _t.time()
+    entry_points(ctx, res, stats, thorough)
+    res.extra['timing']['entry_points_s'] = round(_t.time() - t2, 1)
+    res.extra['entry_points'] = stats.get('entry_points')
     t2 = _t.time()
     overlapping_stores(ctx, res, stats, thorough)
     res.extra['timing']['overlapping_stores_s'] = round(_t.time() - t2, 1)
@@ -772,6 +1225,19 @@ def replay(payload):
         finally:
             env.close()
             shutil.rmtree(d, ignore_errors=True)
+    if case.get('check') == 'entry_point':
+        d = tempfile.mkdtemp(prefix='c01r-')
+        o, tables, close = ep_make(lambda name: tempfile.mkdtemp(prefix=name + '-', dir=d), case['container'], case['min_file_size'], case['protocol'])
+        try:
+            v = ep_values(case['min_file_size'])[case['value_index']]
+            problems, outcome = ep_case(o, case['table'], case['storer'], [case['reader']], v, ep_options(case['options_index']), 'r')
+            print('%s.%s(%s) -> %s' % (case['table'], case['storer'], short(v), outcome))
+            for sig, desc, reader in problems:
+                print(sig, desc)
+            return not problems
+        finally:
+            close()
+            shutil.rmtree(d, ignore_errors=True)
     d = tempfile.mkdtemp(prefix='c01r-')
     try:
         disk = getattr(diskcache, case.get('disk', 'Disk'))
@@ -781,7 +1247,7 @@ def replay(payload):
             c.set('k', io.BytesIO(data), read=True)
             want = data
         else:
-            want = pickle.loads(bytes.fromhex(case['value_pickle_hex']))
+            want = unpickle_hex(case['value_pickle_hex'])
             c.set('k', want)
         got = c.get('k')
         print('stored %s, got %s' % (short(want), short(got)))
